@@ -225,6 +225,13 @@ where
         {
             let mut guard = self.group.write();
             guard.insert(name.clone(), state.clone());
+            #[cfg(datacake_verif)]
+            datacake_crdt::verif::emit(|seq| {
+                format!(
+                    "{{\"ev\":\"ks_install\",\"seq\":{},\"name\":\"{}\"}}",
+                    seq, name
+                )
+            });
         }
 
         {
